@@ -8,6 +8,11 @@ def norm(p):
     run that uses relative names), repeated slashes and '.' segments are dropped"""
     if p and not p.startswith("/") and not p.startswith("$ROOT"):
         p = "$ROOT/" + p
+    if p and "/cur/.." in p:
+        # generator convention (gen.apply_dotdot): $ROOT/cur is a symbolic link to $ROOT/rel/v2, so "cur/.." is $ROOT/rel
+        p = p.replace("/cur/../", "/rel/")
+        if p.endswith("/cur/.."):
+            p = p[:-len("/cur/..")] + "/rel"
     lead = "/" if p.startswith("/") else ""
     segs = [x for x in p.split("/") if x not in ("", ".")]
     return lead + "/".join(segs) if segs else (lead or "")
@@ -181,20 +186,27 @@ def m5(tree, layers, name, suffix, postfixes, mask_first=True):
             for nm in names:
                 if len(nm) > len(suf) and nm.endswith(suf) and tree.is_fileish(d + "/" + nm):
                     consulted.append(d + "/" + nm)
-    masked = []
+    # masking works on positions: a directory may be listed twice (A:B:A), then its files are consulted twice
+    # and the copy at the later position is the one that counts
+    masked_idx = set()
     for i, p in enumerate(consulted):
         if p == main and i == 0:
             continue
         if i == 0 and not mask_first:
             continue
         if any(basename(q) == basename(p) for q in consulted[i + 1:]):
-            masked.append(p)
+            masked_idx.add(i)
     merged = None
-    for p in consulted:
-        if p in masked:
+    for i, p in enumerate(consulted):
+        if i in masked_idx:
             continue
         c = tree.conf_of(p)
         merged = c if merged is None else merge(merged, c)
+    live = set(p for i, p in enumerate(consulted) if i not in masked_idx)
+    masked = []
+    for i, p in enumerate(consulted):
+        if i in masked_idx and p not in live and p not in masked:
+            masked.append(p)
     return {"consulted": consulted, "masked": masked, "merged": merged if merged is not None else Conf(),
             "nofile": len(consulted) == 0, "main": main}
 
